@@ -15,8 +15,8 @@ def make_recorder(bl, prune_desc):
         if v is None: return 'None'
         return str(v)
     class Rec(base):
-        def __init__(self): self.trace = []
-        def visitnode(self, n): self.trace.append('E' + d(n))
+        def __init__(self): self.trace = []; self.entered = []
+        def visitnode(self, n): self.trace.append('E' + d(n)); self.entered.append(id(n))
         def visitnodeend(self, n): self.trace.append('L' + d(n))
     for name in dir(base):
         if name.startswith('visit') and name not in ('visit', 'visitnode', 'visitnodeend'):
@@ -28,6 +28,20 @@ def make_recorder(bl, prune_desc):
             setattr(Rec, name, mk(name))
     return Rec, d
 
+def reachable_nodes(bl, roots):
+    """ids of every node object reachable from the roots through ANY attribute (nodes, lists/tuples of nodes), each once"""
+    node = bl.ast.node
+    seen = {}; order = []
+    stack = list(reversed(roots))
+    while stack:
+        n = stack.pop()
+        if id(n) in seen: continue
+        seen[id(n)] = n; order.append(n)
+        for v in vars(n).values():
+            if isinstance(v, node): stack.append(v)
+            elif isinstance(v, (list, tuple)): stack.extend(x for x in v if isinstance(x, node))
+    return seen
+
 def esc(t):
     return t.replace('\\', '\\\\').replace('\n', '\\n').replace('\t', '\\t')
 
@@ -38,7 +52,7 @@ def run(ctx):
     bl = runner.get_bashlex()
     inputs = common.dedup(common.corpus_inputs() + common.random_scripts(seed, 500 if quick else 8000, unsupported=0.06))
     if ctx.get('replay'): inputs = [json.load(open(ctx['replay']))['input']]
-    lines = []; meta = []; kinds = collections.Counter()
+    lines = []; meta = []; kinds = collections.Counter(); identity_bad = []
     for s in inputs:
         for opts in (dict(), dict(proceedonerror=True)):
             o = canon.run(bl, 'parse', s, **opts)
@@ -55,6 +69,13 @@ def run(ctx):
                 for t in trees: r.visit(t)
             except Exception as e:
                 meta.append((s, opts, '-', 'EXC %s: %s' % (type(e).__name__, e))); lines.append('visit\t-\t-\t' + o); continue
+            # "reaches every node once": by object identity, over every attribute (a node hidden in `name`/`body`/... of another counts)
+            reach = reachable_nodes(bl, trees)
+            cnt = collections.Counter(r.entered)
+            missing = [n for i, n in reach.items() if i not in cnt]
+            twice = [reach[i] for i, c in cnt.items() if c > 1 and i in reach]
+            if missing or twice:
+                identity_bad.append((s, opts, ('not-visited:' + d(missing[0])) if missing else ('visited-twice:' + d(twice[0]))))
             alln = [x[1:] for x in r.trace if x.startswith('E')]
             for x in alln: kinds[x[1:].split('@')[0]] += 1
             meta.append((s, opts, '-', esc(' '.join(r.trace)))); lines.append('visit\t-\t-\t' + o)
@@ -77,6 +98,11 @@ def run(ctx):
             if len(violations) < 25 and not any(v['signature'] == sig for v in violations):
                 violations.append(dict(property='C15', input=s, options=opts, prune_at=tg, signature=sig, impl_trace=itrace[:3000], spec_trace=mtrace[:3000],
                                        how='callback trace of a recording nodevisitor subclass versus Lean visit (= specification by Props.C15)'))
+    for s_, opts_, what in identity_bad:
+        sig = 'node-' + what.split(':')[0]
+        if len(violations) < 25 and not any(v['signature'] == sig for v in violations):
+            violations.append(dict(property='C15', input=s_, options=opts_, signature=sig, detail=what,
+                                   how='node objects reachable through any attribute versus the objects the visitor entered (by identity)'))
     return dict(evaluations=len(lines), distinct_nontrivial=len(nontrivial),
                 rule='trees returned for corpus + seeded generated scripts (with and without proceedonerror, so unimplemented nodes occur); traversal without '
                      'pruning and with the callback returning False at every node of small trees (a sample of 6 nodes of larger ones); node kinds visited: %s' % dict(kinds),
